@@ -394,6 +394,10 @@ func (e *Env) binary(x *EBin) (TV, error) {
 		}
 		return TV{T(SBool, "(%s %s %s)", x.Op, a.T.S, b.T.S), tBool}, nil
 	case "+", "-", "*":
+		if x.Op == "+" && a.T.Sort == SStr && b.T.Sort == SStr {
+			// string concatenation (same axioms as the translator uses)
+			return TV{e.vc.strConcat(a.T, b.T), types.Typ[types.String]}, nil
+		}
 		if a.T.Sort != SInt || b.T.Sort != SInt {
 			return TV{}, fmt.Errorf("arithmetic on non-integers in %s", exprString(x))
 		}
@@ -449,7 +453,17 @@ func (e *Env) ident(name string) (TV, error) {
 	if e.fr != nil {
 		if as := e.fr.allocsByName[name]; len(as) > 0 && e.fr.cellAlloc[as[0]] {
 			typ := derefType(as[0].Type())
-			return TV{e.vc.fresh("dead:"+name, e.vc.sortOf(typ)), typ}, nil
+			// one unconstrained value per name and verified function, so that
+			// two mentions of the same dead local in a clause agree
+			if e.vc.deadLocals == nil {
+				e.vc.deadLocals = map[string]Term{}
+			}
+			t, ok := e.vc.deadLocals[name]
+			if !ok {
+				t = e.vc.fresh("dead:"+name, e.vc.sortOf(typ))
+				e.vc.deadLocals[name] = t
+			}
+			return TV{t, typ}, nil
 		}
 	}
 	// ghost state
@@ -811,6 +825,44 @@ func (e *Env) call(x *ECall) (TV, error) {
 		srt := vc.sortOf(v.Typ)
 		vc.declare("box:"+key, fmt.Sprintf("(declare-fun %s (%s) Int)\n(declare-fun %s (Int) %s)", bx, srt, ub, srt))
 		return TV{T(SInt, "(%s %s)", bx, v.T.S), types.NewInterfaceType(nil, nil)}, nil
+	case "unbox", "isboxed":
+		// unbox(x, "T"): the T value stored in interface value x (meaningful
+		// only when isboxed(x, "T"): the dynamic type of x is T). T is a
+		// universe type name (string, int, uint8, ...) or a named type of the
+		// contract's package.
+		if len(x.Args) != 2 {
+			return TV{}, fmt.Errorf("%s takes an interface value and a type name", x.Fn)
+		}
+		v, err := e.eval(x.Args[0])
+		if err != nil {
+			return TV{}, err
+		}
+		lit, ok := x.Args[1].(*EStr)
+		if !ok {
+			return TV{}, fmt.Errorf("%s: second argument must be a type name string", x.Fn)
+		}
+		var bt types.Type
+		if obj, ok := types.Universe.Lookup(lit.V).(*types.TypeName); ok {
+			bt = obj.Type()
+		} else if e.pkg != nil {
+			if tn, ok := e.pkg.Scope().Lookup(lit.V).(*types.TypeName); ok {
+				bt = tn.Type()
+			}
+		}
+		if bt == nil {
+			return TV{}, fmt.Errorf("%s: unknown type %s", x.Fn, lit.V)
+		}
+		if v.T.Sort != SInt {
+			return TV{}, fmt.Errorf("%s: first argument is not an interface value", x.Fn)
+		}
+		if x.Fn == "isboxed" {
+			return TV{eq(T(SInt, "(typeof %s)", v.T.S), vc.typeTag(bt)), tBool}, nil
+		}
+		key := typeKey(bt)
+		srt := vc.sortOf(bt)
+		bx, ub := quote("box:"+key), quote("unbox:"+key)
+		vc.declare("box:"+key, fmt.Sprintf("(declare-fun %s (%s) Int)\n(declare-fun %s (Int) %s)", bx, srt, ub, srt))
+		return TV{T(srt, "(%s %s)", ub, v.T.S), bt}, nil
 	case "typeof":
 		v, err := e.eval(x.Args[0])
 		if err != nil {
